@@ -48,6 +48,9 @@ class Driver:
         self.order = self.T[:]
         self.rng.shuffle(self.order)
         self.sub = variant % 11 == 0  # run gwf in a fresh interpreter for a sample of traces
+        # a quarter of the histories invoke every command from a sub-directory of the project (gwf finds the
+        # workflow in a parent directory); the sub-directory holds unrelated files named like the workflow's
+        self.subdir = "analysis" if variant % 4 == 3 else None
         self.pool = None       # the real local worker pool (local back end only)
         self.epoch_base = 0    # number of jobs accepted by earlier pools (ids restart with every pool)
         self.seen_enq = 0
@@ -216,6 +219,8 @@ class Driver:
         return {k: v for k, v in snap.items() if k not in self.files}
 
     def gwf(self, args, **kw):
+        if self.subdir:
+            kw.setdefault("cwd", self.sb.path(self.subdir))
         return self.sb.gwf(args, sub=kw.pop("sub", self.sub), **kw)
 
     # -- steps ----------------------------------------------------------------
@@ -231,6 +236,9 @@ class Driver:
         self.write_conf()
         os.makedirs(sb.path(".gwf/logs"), exist_ok=True)
         sb.write("notes.txt", "an unrelated file\n")
+        if self.subdir:
+            for f in self.files:
+                sb.write(os.path.join(self.subdir, f), "not a workflow file: %s\n" % f)
         sb.write(".gwf/logs/%s.stdout" % self.perm[self.T[0]], "an old log\n")
         for f, m in h["fs"].items():
             sb.set_file(f, m)
